@@ -74,3 +74,10 @@ package lspcommon
 //@   at call (*bytes.Buffer).Bytes#0 assert[splice-text] forall(j, 0, len(change.Text), result[start + j] == change.Text[j])
 //@   at call (*bytes.Buffer).Bytes#0 assert[splice-suffix] forall(j, end, len(contents), result[start + len(change.Text) + j - end] == contents[j])
 //@ end
+
+// OffsetForPosition: cursor position -> byte offset (every cursor request goes through it).
+//@ func OffsetForPosition
+//@   props C01
+//@   sweep C01
+//@   ensures[offset-in-text] result1 == nil ==> 0 <= result0 && result0 <= len(contents)
+//@ end
